@@ -1,47 +1,112 @@
-/* C07 unit harness: calc_bits and the init fields of the join counter, from the CURRENT tree
- * (static inline functions of src/myth_sync_func.h, included directly).
+/* C07 unit harness: calc_bits, the init fields, the word widths and wide-value ("preset") runs of the
+ * join counter, from the CURRENT tree (static inline functions of src/myth_sync_func.h, included
+ * directly; struct layout from include/myth/myth.h).
  *
- *   calc <x>   -> "calc <bits>"                                   calc_bits(x)
- *   init <n>   -> "init n=<n> bits=<b> mask=<m> state=<s>"        myth_join_counter_init_body(jc, 0, n)
+ *   calc <x>        -> "calc <bits>"                                   calc_bits(x)
+ *   init <n>        -> "init n=<n> bits=<b> mask=<m> state=<s>"        myth_join_counter_init_body(jc, 0, n)
+ *   widths 0        -> "widths state=<bytes> state_signed=<0|1> n_threads=<bytes> state_mask=<bytes> n_threads_bits=<bytes>"
+ *                      sizeof of the words coq/JoinCounter/JcModel.v treats as 64-bit two's-complement longs
+ *   preset <n> <k> <w>
+ *                   -> "preset n=<n> k=<k> reg=<word after k registrations> pre=<word after the preset> dec=<ret>
+ *                       state=<final word> released=<r> rets=<sum of wait return values> q=<queue length at the end>"
+ *      A white-box scenario that exercises wide words without 2^30 real decrements: the runtime is
+ *      started with <w> workers, the counter is initialised with N = <n> (body, long argument), <k> real
+ *      threads call myth_join_counter_wait and fall asleep (the harness waits until all k sit in the
+ *      sleep queue), then the harness ADDS N-1 TO jc->state DIRECTLY THROUGH THE STRUCT (a harness preset
+ *      standing for N-1 decrements; not an API operation), performs the final decrement with
+ *      myth_join_counter_dec and gives the waiters 3 s of wall time to come back.
  *
- * Every case runs in a forked child with a 1 s alarm: a child that is killed (assertion
- * failure -> SIGABRT, non-terminating loop -> SIGALRM) prints "<kind> none", which is what the
- * model answers outside the representable range.  The myth runtime is not started: none of the
- * two functions needs it. */
+ * Every case runs in a forked child with an alarm: a child that is killed (assertion failure ->
+ * SIGABRT, non-terminating loop -> SIGALRM, exit(1) of the library) prints "<kind> none". */
 #include <stdio.h>
 #include <stdlib.h>
 #include <string.h>
 #include <unistd.h>
+#include <time.h>
 #include <sys/wait.h>
 #include "myth/myth.h"
 #include "myth_config.h"
 #include "myth_sched_func.h"
 #include "myth_sync_func.h"
 
+static myth_join_counter_t g_jc[1];
+static volatile long g_released, g_rets;
+
+static void * waiter(void * arg) {
+  (void)arg;
+  long r = myth_join_counter_wait(g_jc);
+  __sync_fetch_and_add(&g_rets, r);
+  __sync_fetch_and_add(&g_released, 1);
+  return 0;
+}
+
+static long qlen(myth_sleep_queue_t * q) {
+  long n = 0;
+  myth_sleep_queue_item_t it = q->head;
+  while (it && n < 1000000) { n++; it = it->next; }
+  return n;
+}
+
+static double now(void) {
+  struct timespec ts; clock_gettime(CLOCK_MONOTONIC, &ts);
+  return ts.tv_sec + ts.tv_nsec * 1e-9;
+}
+
+static void preset(long n, long k, long w, char * out, size_t outsz) {
+  myth_globalattr_t ga; myth_globalattr_init(&ga);
+  myth_globalattr_set_n_workers(&ga, (int)(w < 1 ? 1 : w));
+  myth_init_ex(&ga);
+  memset(g_jc, 0x5a, sizeof(g_jc));
+  myth_join_counter_init_body(g_jc, 0, n);
+  for (long i = 0; i < k; i++) myth_create(waiter, 0);
+  /* all k waiters asleep in the queue (their registration CAS and enqueue callback done) */
+  double t0 = now();
+  while (qlen(g_jc->sleep_q) < k && now() - t0 < 30.0) myth_yield();   /* never waits on a healthy tree */
+  long reg = (long)g_jc->state;
+  /* harness preset: N-1 decrements' worth stored into the low field, through the struct */
+  g_jc->state = g_jc->state + (n - 1);
+  long pre = (long)g_jc->state;
+  long dec = myth_join_counter_dec(g_jc);
+  t0 = now();
+  while (g_released < k && now() - t0 < 3.0) myth_yield();
+  snprintf(out, outsz, "preset n=%ld k=%ld reg=%ld pre=%ld dec=%ld state=%ld released=%ld rets=%ld q=%ld\n",
+           n, k, reg, pre, dec, (long)g_jc->state, (long)g_released, (long)g_rets, qlen(g_jc->sleep_q));
+}
+
 int main(void) {
   char line[256], kind[32];
-  long x;
+  long x, k, w;
   while (fgets(line, sizeof(line), stdin)) {
-    if (sscanf(line, "%31s %ld", kind, &x) != 2) { printf("bad\n"); fflush(stdout); continue; }
+    k = 0; w = 1;
+    if (sscanf(line, "%31s %ld %ld %ld", kind, &x, &k, &w) < 2) { printf("bad\n"); fflush(stdout); continue; }
     int fd[2];
     if (pipe(fd)) { perror("pipe"); return 2; }
     fflush(stdout);
     pid_t p = fork();
     if (p == 0) {
-      char out[256]; out[0] = 0;
+      char out[512]; out[0] = 0;
       close(fd[0]);
       /* the assertion message of a killed child is noise */
       freopen("/dev/null", "w", stderr);
-      alarm(1);
       if (!strcmp(kind, "calc")) {
+        alarm(1);
         int b = calc_bits(x);
         snprintf(out, sizeof(out), "calc %d\n", b);
       } else if (!strcmp(kind, "init")) {
+        alarm(1);
         static myth_join_counter_t jc;
         memset(&jc, 0x5a, sizeof(jc));
         myth_join_counter_init_body(&jc, 0, x);
         snprintf(out, sizeof(out), "init n=%ld bits=%d mask=%ld state=%ld\n",
                  jc.n_threads, jc.n_threads_bits, jc.state_mask, (long)jc.state);
+      } else if (!strcmp(kind, "widths")) {
+        static myth_join_counter_t jc;
+        snprintf(out, sizeof(out), "widths state=%d state_signed=%d n_threads=%d state_mask=%d n_threads_bits=%d\n",
+                 (int)sizeof(jc.state), (int)((__typeof__(jc.state))-1 < 0), (int)sizeof(jc.n_threads),
+                 (int)sizeof(jc.state_mask), (int)sizeof(jc.n_threads_bits));
+      } else if (!strcmp(kind, "preset")) {
+        alarm(45);
+        preset(x, k, w, out, sizeof(out));
       } else {
         snprintf(out, sizeof(out), "bad\n");
       }
@@ -49,7 +114,7 @@ int main(void) {
       _exit(0);
     }
     close(fd[1]);
-    char buf[256]; ssize_t n = read(fd[0], buf, sizeof(buf) - 1);
+    char buf[512]; ssize_t n = read(fd[0], buf, sizeof(buf) - 1);
     close(fd[0]);
     int st = 0; waitpid(p, &st, 0);
     if (n > 0 && WIFEXITED(st) && WEXITSTATUS(st) == 0) { buf[n] = 0; fputs(buf, stdout); }
